@@ -40,6 +40,7 @@ func (p *pooledSliceBuffers[T]) get(neededSize, maxSize int) ([]T, *[]T) {
 	if idx < 0 {
 		return make([]T, neededSize), nil
 	}
+	verifPoint("bufGet", p, idx, neededSize)
 	if v := p.pools[idx].Get(); v != nil {
 		bufp := v.(*[]T)
 		if cap(*bufp) >= neededSize {
@@ -56,6 +57,7 @@ func (p *pooledSliceBuffers[T]) put(bufp *[]T) {
 		return
 	}
 	*bufp = (*bufp)[:0]
+	verifPoint("bufPut", bufp, idx, 0)
 	p.pools[idx].Put(bufp)
 }
 
